@@ -48,6 +48,7 @@ func genFunction(prog *ssa.Program, cs *Contracts, fn *ssa.Function, fc *FuncCon
 	c := newCtx(prog, cs)
 	c.top = fn
 	c.fc = fc
+	c.locMode = fc.LocModel
 	rep = &FuncReport{Func: fn.String(), Key: funcKey(fn), Contract: fc, Props: map[string]bool{}, Safety: map[string]bool{}}
 	for _, cl := range fc.Clauses {
 		for _, p := range cl.Props {
